@@ -4,6 +4,7 @@ import (
 	"encoding/json"
 	"fmt"
 	"os"
+	"sort"
 	"strings"
 	"testing"
 
@@ -252,7 +253,24 @@ func TestC16(t *testing.T) {
 					op.Values[bad] = model.Str("a")
 					class = "malformed-value-key"
 				}
-				switch rapid.IntRange(0, 3).Draw(rt, "carrier") {
+				switch rapid.IntRange(0, 4).Draw(rt, "carrier") {
+				case 4:
+					// names used only by a projection expression count as used
+					op.Kind, op.Key, op.Values = "Get", g.key(rt), nil
+					var parts []string
+					for n := range op.Names {
+						if validName(n) {
+							parts = append(parts, n)
+						}
+					}
+					sort.Strings(parts)
+					op.Projection = strings.Join(append(parts, "a"), ", ")
+					if class == "unused-value" || class == "undefined-value" || class == "malformed-value-key" || class == "undefined-name" {
+						class = "placeholders-exact"
+					}
+					if len(usedN) == 0 && class == "placeholders-exact" {
+						op.Names = nil
+					}
 				case 0:
 					op.Kind, op.Filter = "Scan", expr
 				case 1:
@@ -359,6 +377,19 @@ func TestC16(t *testing.T) {
 			"": func(rt *rapid.T) { fail(w.check()) },
 		})
 	})
+}
+
+func validName(n string) bool {
+	if len(n) < 2 || n[0] != '#' {
+		return false
+	}
+	for i := 1; i < len(n); i++ {
+		c := n[i]
+		if !(c >= 'a' && c <= 'z' || c >= 'A' && c <= 'Z' || c >= '0' && c <= '9' || c == '_') {
+			return false
+		}
+	}
+	return true
 }
 
 func c16KeyValue(db *model.DB, table, attr string) model.AV {
